@@ -199,19 +199,48 @@ func Snapshot(tk any) string {
 // ---------- operations ----------
 
 type world struct {
-	inv    *invocation.Token
-	dlgs   []*delegation.Token
-	loader delegation.Loader
-	cs     chain.Case
-	data   ipld.Node
+	inv     *invocation.Token
+	dlgs    []*delegation.Token
+	cids    []cid.Cid
+	loader  delegation.Loader
+	cs      chain.Case
+	data    ipld.Node
+	alt     []val.KV  // alternative arguments: same keys, collections / strings of other lengths
+	altData ipld.Node
 }
 
-var opNames = []string{"ExecutionAllowed", "ExecutionAllowedWithArgsHook", "inv.ToSealed", "inv.ToDagCbor", "inv.ToDagJson", "inv.ToSealedWriter",
+// hiding is a loader from which one delegation has gone missing.
+type hiding struct {
+	inner  delegation.Loader
+	hidden cid.Cid
+}
+
+func (l hiding) GetDelegation(c cid.Cid) (*delegation.Token, error) {
+	if c == l.hidden {
+		return nil, delegation.ErrDelegationNotFound
+	}
+	return l.inner.GetDelegation(c)
+}
+
+func errClass(err error) string {
+	if err == nil {
+		return "allowed"
+	}
+	return "denied"
+}
+
+var opNames = []string{"ExecutionAllowed", "ExecutionAllowedWithArgsHook", "ExecutionAllowed/alt-args", "ExecutionAllowed/alt-args", "ExecutionAllowed/incomplete-loader", "dlg.Policy.Match/alt-data", "inv.ToSealed", "inv.ToDagCbor", "inv.ToDagJson", "inv.ToSealedWriter",
 	"inv.accessors", "args.Iter", "args.String", "args.ToIPLD", "args.Equals", "args.GetNode", "args.WriteableClone",
 	"meta.Iter", "meta.String", "meta.Get", "inv.IsValid",
 	"dlg.ToSealed", "dlg.ToDagJson", "dlg.accessors", "dlg.Policy.String", "dlg.Policy.Match", "dlg.Meta.String", "dlg.IsValid"}
 
-var keyTouching = map[string]bool{"ExecutionAllowed": true, "ExecutionAllowedWithArgsHook": true, "inv.ToSealed": true, "inv.ToDagCbor": true, "inv.ToDagJson": true,
+// aloneComparable: operations whose result does not depend on the wall clock or on signatures, so that the
+// result inside a history can be compared with the result of the same operation run alone on a fresh world.
+var aloneComparable = map[string]bool{"ExecutionAllowed": true, "ExecutionAllowedWithArgsHook": true, "ExecutionAllowed/alt-args": true,
+	"ExecutionAllowed/incomplete-loader": true, "dlg.Policy.Match/alt-data": true, "dlg.Policy.Match": true, "dlg.Policy.String": true,
+	"args.Iter": true, "args.String": true, "args.ToIPLD": true, "args.GetNode": true, "args.WriteableClone": true, "meta.Iter": true, "meta.String": true, "meta.Get": true}
+
+var keyTouching = map[string]bool{"ExecutionAllowed/alt-args": true, "ExecutionAllowed/incomplete-loader": true, "ExecutionAllowed": true, "ExecutionAllowedWithArgsHook": true, "inv.ToSealed": true, "inv.ToDagCbor": true, "inv.ToDagJson": true,
 	"inv.ToSealedWriter": true, "args.Iter": true, "args.String": true, "args.ToIPLD": true, "args.Equals": true, "args.WriteableClone": true, "meta.Iter": true, "meta.String": true}
 
 func sortedLines(s string) string {
@@ -236,9 +265,23 @@ func (w *world) apply(op string, which int) (res string) {
 	}
 	switch op {
 	case "ExecutionAllowed":
-		return fmt.Sprint(w.inv.ExecutionAllowed(w.loader))
+		return errClass(w.inv.ExecutionAllowed(w.loader))
 	case "ExecutionAllowedWithArgsHook":
-		return fmt.Sprint(w.inv.ExecutionAllowedWithArgsHook(w.loader, func(ro args.ReadOnly) (*args.Args, error) { return ro.WriteableClone(), nil }))
+		return errClass(w.inv.ExecutionAllowedWithArgsHook(w.loader, func(ro args.ReadOnly) (*args.Args, error) { return ro.WriteableClone(), nil }))
+	case "ExecutionAllowed/alt-args":
+		return errClass(w.inv.ExecutionAllowedWithArgsHook(w.loader, func(ro args.ReadOnly) (*args.Args, error) { return chain.BuildArgs(w.alt) }))
+	case "ExecutionAllowed/incomplete-loader":
+		if len(w.cids) == 0 {
+			return "no-delegation"
+		}
+		return errClass(w.inv.ExecutionAllowed(hiding{inner: w.loader, hidden: w.cids[which%len(w.cids)]}))
+	case "dlg.Policy.Match/alt-data":
+		if d == nil {
+			return "no-delegation"
+		}
+		ok, _ := d.Policy().Match(w.altData)
+		ok2, _ := d.Policy().PartialMatch(w.altData)
+		return fmt.Sprint(ok, ok2)
 	case "inv.ToSealed":
 		b, c, err := w.inv.ToSealed(invPriv)
 		return fmt.Sprintf("%x %s %v", b, c, err)
@@ -327,12 +370,16 @@ func (w *world) apply(op string, which int) (res string) {
 	return "unknown-op"
 }
 
-func build(cs chain.Case) (*world, error) {
+func build(cs chain.Case, alt []val.KV) (*world, error) {
 	b, err := chain.Build(cs)
 	if err != nil {
 		return nil, err
 	}
-	return &world{inv: b.Inv, dlgs: b.Dlgs, loader: b.Loader, cs: cs, data: val.V{K: "map", M: cs.Inv.Args}.Node()}, nil
+	if alt == nil {
+		alt = cs.Inv.Args
+	}
+	return &world{inv: b.Inv, dlgs: b.Dlgs, cids: b.Cids, loader: b.Loader, cs: cs, data: val.V{K: "map", M: cs.Inv.Args}.Node(),
+		alt: alt, altData: val.V{K: "map", M: alt}.Node()}, nil
 }
 
 // ---------- cases ----------
@@ -344,11 +391,13 @@ type Step struct {
 
 type SeqCase struct {
 	Chain chain.Case `json:"chain"`
+	Alt   []val.KV   `json:"alt_args,omitempty"`
 	Hist  []Step     `json:"hist"`
 }
 
 type ConcCase struct {
 	Chain chain.Case `json:"chain"`
+	Alt   []val.KV   `json:"alt_args,omitempty"`
 	Hists [][]Step   `json:"hists"`
 }
 
@@ -360,8 +409,70 @@ func unsortedKeys(kvs []val.KV) bool {
 	return len(ks) >= 2 && !sort.StringsAreSorted(ks)
 }
 
-func drawChain(t *rapid.T) chain.Case {
+// richValue draws a collection / string of the given size for the argument named k.
+func richValue(t *rapid.T, k string, n int) val.V {
+	switch k {
+	case "l":
+		l := val.V{K: "list"}
+		for i := 0; i < n; i++ {
+			l.L = append(l.L, val.Int(int64(i%3)))
+		}
+		return l
+	case "to":
+		l := val.V{K: "list"}
+		for i := 0; i < n; i++ {
+			l.L = append(l.L, val.Str(fmt.Sprintf("u%d@example.com", i)))
+		}
+		return l
+	case "s":
+		return val.Str(strings.Repeat("aé", n)[:0] + strings.Repeat("x", n))
+	case "by":
+		return val.Bytes(make([]byte, n))
+	default:
+		m := val.V{K: "map"}
+		for i := 0; i < n; i++ {
+			m.M = append(m.M, val.KV{K: fmt.Sprintf("k%d", i), V: val.List(val.Int(int64(i)))})
+		}
+		return m
+	}
+}
+
+func drawChain(t *rapid.T) (chain.Case, []val.KV) {
 	cs := chain.DrawConforming(t, chain.GenOpt{MaxLen: 3, Commands: true, Policies: true, Args: true, Irrelevant: true})
+	var alt []val.KV
+	if rapid.Bool().Draw(t, "rich") {
+		// arguments holding collections and strings, an alternative argument set in which the same keys hold
+		// values of other lengths, and policies drawn from the full grammar over them (slices and indexes with
+		// negative bounds, iterators, quantifiers, like): the chain need not be conforming here, a denial is as
+		// good a result as an approval - it must be the same result every time, and nothing may be written to
+		have := map[string]bool{}
+		for _, e := range cs.Inv.Args {
+			have[e.K] = true
+		}
+		for _, k := range []string{"l", "to", "s", "by", "mm"} {
+			if have[k] || rapid.IntRange(0, 3).Draw(t, "rich_"+k) == 0 {
+				continue
+			}
+			cs.Inv.Args = append(cs.Inv.Args, val.KV{K: k, V: richValue(t, k, rapid.IntRange(0, 5).Draw(t, "rich_n_"+k))})
+		}
+		for _, e := range cs.Inv.Args {
+			switch e.K {
+			case "l", "to", "s", "by", "mm":
+				if e.V.K == "list" || e.V.K == "str" || e.V.K == "bytes" || e.V.K == "map" {
+					alt = append(alt, val.KV{K: e.K, V: richValue(t, e.K, rapid.IntRange(0, 6).Draw(t, "alt_n_"+e.K))})
+					continue
+				}
+			}
+			alt = append(alt, e)
+		}
+		data := val.V{K: "map", M: cs.Inv.Args}
+		for i := range cs.Links {
+			if rapid.Bool().Draw(t, "richpol") {
+				cs.Links[i].Pol = pol.Gen(t, data, pol.GenCfg{Depth: 2, MaxStmt: 3, SelCfg: sel.GenCfg{MaxSegs: 3}}, fmt.Sprintf("rp%d", i))
+				cs.Links[i].PolIPLD = true
+			}
+		}
+	}
 	// arguments / metadata in a drawn (mostly unsorted) order
 	keys := []string{"zz", "b", "aa", "a", "n", "é", "m", "c"}
 	n := rapid.IntRange(0, 8).Draw(t, "nargs")
@@ -385,10 +496,7 @@ func drawChain(t *rapid.T) chain.Case {
 		cs.Links[i].SpareCap = rapid.Bool().Draw(t, "sparecap")
 		cs.Links[i].Decoded = cs.Links[i].Decoded && !cs.Links[i].SpareCap
 	}
-	// policies over the new keys keep the chain conforming: none added; existing statements stay satisfied
-	_ = pol.Policy{}
-	_ = sel.Sel{}
-	return cs
+	return cs, alt
 }
 
 func drawHist(t *rapid.T, label string, max int) []Step {
@@ -423,10 +531,13 @@ func allSnaps(w *world) []string {
 }
 
 func runSeq(c *h.Ctx, sc SeqCase) {
-	w, err := build(sc.Chain)
+	w, err := build(sc.Chain, sc.Alt)
 	if err != nil {
 		c.P.Class("build-error")
 		return
+	}
+	if sc.Alt != nil {
+		c.P.Class("rich")
 	}
 	before := allSnaps(w)
 	touch := false
@@ -449,13 +560,23 @@ func runSeq(c *h.Ctx, sc SeqCase) {
 			c.Fail("C20/not-repeatable/"+st.Op, "operation %s returned a different result the second time:\n 1st %.300s\n 2nd %.300s", st.Op, r1, r2)
 			return
 		}
+		// "each returns a result equivalent to the one it returns when run alone": a fresh world built from
+		// the same description, this one operation only
+		if aloneComparable[st.Op] && i > 0 {
+			if fw, err := build(sc.Chain, sc.Alt); err == nil {
+				if ra := fw.apply(st.Op, st.Which); ra != r1 {
+					c.Fail("C20/differs-from-alone/"+st.Op, "operation %d (%s) returned, after the %d operations before it,\n   %.300s\nwhile the same operation run alone on freshly built tokens returns\n   %.300s\nhistory so far: %v", i, st.Op, i, r1, ra, sc.Hist[:i+1])
+					return
+				}
+			}
+		}
 		if keyTouching[st.Op] {
 			touch = true
 		}
 		ops[st.Op]++
 		c.P.Class("op:" + st.Op)
 	}
-	if (unsortedKeys(sc.Chain.Inv.Args) || unsortedKeys(sc.Chain.Inv.Meta)) && touch {
+	if ((unsortedKeys(sc.Chain.Inv.Args) || unsortedKeys(sc.Chain.Inv.Meta)) && touch) || (sc.Alt != nil && ops["ExecutionAllowed/alt-args"]+ops["dlg.Policy.Match/alt-data"] > 0) {
 		c.P.NonTrivial([]any{"seq", keyPattern(sc.Chain), ops}, map[string]any{"mode": "sequential", "arg_keys": argKeys(sc.Chain), "meta_keys": metaKeys(sc.Chain), "history": sc.Hist, "decoded_invocation": sc.Chain.Inv.Decoded})
 	}
 }
@@ -484,13 +605,14 @@ func keyPattern(cs chain.Case) string {
 }
 
 var seqProp = h.Define(P, "sequential", func(t *rapid.T) SeqCase {
-	return SeqCase{Chain: drawChain(t), Hist: drawHist(t, "h", 12)}
+	cs, alt := drawChain(t)
+	return SeqCase{Chain: cs, Alt: alt, Hist: drawHist(t, "h", 12)}
 }, runSeq)
 
 func TestSequential(t *testing.T) { seqProp.Check(t) }
 
 func runConc(c *h.Ctx, cc ConcCase) {
-	w, err := build(cc.Chain)
+	w, err := build(cc.Chain, cc.Alt)
 	if err != nil {
 		c.P.Class("build-error")
 		return
@@ -549,7 +671,8 @@ func runConc(c *h.Ctx, cc ConcCase) {
 }
 
 var concProp = h.Define(P, "concurrent", func(t *rapid.T) ConcCase {
-	cc := ConcCase{Chain: drawChain(t)}
+	cs, alt := drawChain(t)
+	cc := ConcCase{Chain: cs, Alt: alt}
 	g := rapid.IntRange(2, 8).Draw(t, "goroutines")
 	for i := 0; i < g; i++ {
 		cc.Hists = append(cc.Hists, drawHist(t, fmt.Sprintf("g%d", i), 6))
